@@ -159,6 +159,28 @@ Proof.
 Qed.
 Print Assumptions C05_vec_in_place.
 
+(* ... and when the resulting vector is dropped: what the conversions destroyed plus what the generated Drop destroys for
+   each output record is, as a multiset, everything the input records owned plus everything supplied - each once *)
+Theorem C05_vec_in_place_then_drop : forall ds TI rt A cap, rt_ok rt = true ->
+  forall P Q minus plus carried,
+  layout_ok ds TI A cap P -> layout_ok ds TI A cap Q ->
+  Permutation P (minus ++ carried) -> Permutation Q (plus ++ carried) ->
+  forall v prev pv fl (sz al : N) (inputs : list ((nat -> nat) * buf)),
+  VecConv.flags_ok fl = true ->
+  Forall (fun x => holds ds TI cap A P (fst x) (snd x)) inputs ->
+  exists outs destroyed calls douts,
+    VecConv.run buf buf unit fault (nat * list nat)
+      (VecRecords.rconv ds TI rt A cap minus plus v prev pv) sz al sz al fl (map snd inputs) (0%nat, []) =
+      (VecConv.Done outs (length inputs, destroyed), calls) /\
+    VecRecords.drop_all ds TI rt A cap prev Q outs = Ok douts /\
+    Permutation (destroyed ++ douts)
+                (VecRecords.owned_tokens ds TI P inputs ++ VecRecords.supplied ds TI plus pv 0%nat inputs).
+Proof.
+  intros ds TI rt A cap RT P Q minus plus carried LP LQ PP PQ v prev pv fl sz al inputs OK HF.
+  exact (VecRecords.vec_of_records_then_drop ds TI rt A cap RT P Q minus plus carried LP LQ PP PQ v prev pv fl sz al inputs OK HF).
+Qed.
+Print Assumptions C05_vec_in_place_then_drop.
+
 (* ... and when the converter gives up at element kf (it destroys that element - the generated Drop of P - and returns
    an error, which in this model carries everything the converter destroyed so far): the function has called the
    conversion once per earlier element; it then drops exactly the records already converted (each holds Q with its own
@@ -270,6 +292,41 @@ Example C05_vec_in_place_fails_nonvacuous :
   | _, _ => None
   end = Some ([100; 200]%nat, 4%nat).
 Proof. vm_compute. reflexivity. Qed.
+
+(* ---- end to end: from a request history to the converted record.  For every history of valid requests with
+   power-of-two alignments, ANY two variants P and Q of the definition it builds (the generator emits the conversion for
+   consecutive ones), the removed / added data the generator computes for them (its merge of the two sorted identifier
+   lists), real type information that agrees with the recorded one (C11), a capacity covering max_size, and no two
+   zero-size data of one type at one offset in either variant: `layout_ok` holds for both variants (Link.v: the conclusions
+   of C01, C02, C12) and the lists split them as the conversion needs, so the generated conversion maps every record
+   that holds P to a record that holds Q with the merged values. *)
+From Truc.Proofs Require Import BuilderInv LayoutThms Link.
+Theorem C05_end_to_end : forall h TI rt cap mx, hist_ok h -> pow2_hist h -> rt_ok rt = true ->
+  let b := run h in let ds := b_ds b in
+  (forall v i, In v (b_vs b) -> In i v ->
+     ti_size (TI (d_ty (getd ds i))) = d_size (getd ds i) /\ ti_align (TI (d_ty (getd ds i))) = d_align (getd ds i)) ->
+  max_size (ds, b_vs b) = Some mx -> (mx <= cap)%N ->
+  forall P Q, In P (b_vs b) -> In Q (b_vs b) ->
+  (forall v, v = P \/ v = Q -> forall i j, In i v -> In j v -> i <> j -> Gen.ty ds i = Gen.ty ds j ->
+     d_size (getd ds i) = 0%N -> Gen.of ds i <> Gen.of ds j) ->
+  forall m pl, minus_plus (length (sort_ids P) + length (sort_ids Q)) (sort_ids P) (sort_ids Q) = (m, pl) ->
+  forall v prev and_out vals pvals r,
+  holds ds TI cap (max_type_align (ds, b_vs b)) P vals r ->
+  exists r',
+    op_conv ds TI rt (max_type_align (ds, b_vs b)) cap v prev m pl false and_out r pvals =
+      Ok (if and_out then OAndOut r' (map (fun i => (nm ds i, Some (vals i))) m) else ORecord r',
+          if and_out then [] else droppable_of TI (rev (map (fun i => (nm ds i, (Some (vals i), ty ds i))) m))) /\
+    holds ds TI cap (max_type_align (ds, b_vs b)) Q (merge vals pvals pl) r'.
+Proof.
+  intros h TI rt cap mx Hh Hp RT b ds HTI Hm Hcap P Q HP HQ Hz m pl Hmp v prev and_out vals pvals r Hr.
+  assert (LP : layout_ok ds TI (max_type_align (ds, b_vs b)) cap P).
+  { apply (layout_ok_of_run_zst h Hh Hp TI HTI cap); eauto. intros i j. apply (Hz P); auto. }
+  assert (LQ : layout_ok ds TI (max_type_align (ds, b_vs b)) cap Q).
+  { apply (layout_ok_of_run_zst h Hh Hp TI HTI cap); eauto. intros i j. apply (Hz Q); auto. }
+  destruct (C05_minus_plus P Q m pl Hmp) as (car & P1 & P2).
+  exact (C05_holds ds TI rt _ cap RT P Q m pl car LP LQ P1 P2 v prev and_out vals pvals r Hr).
+Qed.
+Print Assumptions C05_end_to_end.
 
 Theorem C05_current : rt_ok Runtime.exec_rt = true.
 Proof. reflexivity. Qed.
